@@ -74,6 +74,17 @@ def score_check(ctx):
         ro, so = objfam.obj_edges(ctx, 'C11')
         viol.extend(so['violations'])
         cov.setdefault('compared', {})['scores of objects reached by Set/ParseVector histories'] = so['compared']
+    # cold start: in fresh processes, all CPUs make their first scoring call at the same moment
+    cold = {'C03': tlc3x, 'C04': tlc40, 'C05': tlc20}
+    if pid in cold:
+        rr = [r0 for r0 in ctx.tlc_runs if r0['module'] in ('MC_Score3x', 'MC_Score40_views', 'MC_Score20')]
+        outp = rr[0]['out']
+        ncold = 0
+        for k in range(40 if thorough else 10):
+            s0 = ctx.harness('coldstart', prop=pid, **{'in': outp, 'seed': ctx.seed * 100 + k * 7})
+            viol.extend(s0['violations'])
+            ncold += s0['evaluations']
+        cov.setdefault('compared', {})['first-use calls made concurrently in fresh processes'] = ncold
     cov['traces_validated_against_impl'] = cov['evaluations']
     cov['exhaustive'] = pid in ('C03', 'C04', 'C05', 'C11', 'C12')
     cov['rule'] = ('every effective class of the version(s) is enumerated on the real code and compared with the table composition of the '
